@@ -463,3 +463,44 @@ func replaySuggest(n *Native, job *Job, v *Violation) (ReplayResult, bool) {
 	}
 	return res, true
 }
+
+// replayModes replays a C04 counterexample on the native binary: crash, hang or a malformed
+// output line in an editor query mode at the witnessed row.
+func replayModes(n *Native, job *Job, v *Violation) (ReplayResult, bool) {
+	src, ok := v.Witness["src"]
+	if !ok {
+		return ReplayResult{Observed: "no src witness"}, true
+	}
+	args := []string{"./a.rb", v.Witness["mode"], "--row=" + v.Witness["row"]}
+	cfg := nativeConfigFor(n, job, src)
+	res := ReplayResult{Cmd: "ti " + strings.Join(args, " ")}
+	switch {
+	case strings.HasPrefix(v.Kind, "panic"):
+		out, code, _ := n.RunTi(map[string]string{"a.rb": src}, args, cfg)
+		res.Observed = tail(out, 900)
+		res.Reproduced = code != 0 && (strings.Contains(out, "panic:") || strings.Contains(out, "fatal error:"))
+	case v.Kind == "budget":
+		hung := 0
+		for i := 0; i < 3; i++ {
+			out, _, capHit := n.RunTi(map[string]string{"a.rb": src}, args, cfg)
+			res.Observed = tail(out, 300)
+			if strings.TrimSpace(out) == "timeout" || capHit {
+				hung++
+			}
+		}
+		res.Reproduced = hung == 3
+	default:
+		out, code, _ := n.RunTi(map[string]string{"a.rb": src}, args, cfg)
+		res.Observed = tail(out, 600)
+		bad := false
+		if code == 0 && out != "" {
+			for _, l := range strings.Split(strings.TrimSuffix(out, "\n"), "\n") {
+				if !(strings.HasPrefix(l, "%") || strings.HasPrefix(l, "@") || strings.HasPrefix(l, "$") || strings.HasPrefix(l, "./a.rb:::")) {
+					bad = true
+				}
+			}
+		}
+		res.Reproduced = bad
+	}
+	return res, true
+}
